@@ -24,7 +24,7 @@ SHARDS = {"quick": 8, "thorough": 16}
 DEADLINE = {"quick": 40, "thorough": 400}
 REQUIRED = {
     "tok:pad:ok": 500, "tok:nopad:ok": 500, "tok:pad:rejected-char": 50, "tok:nopad:rejected-char": 50,
-    "toktype:F": 20, "toktype:P": 100, "toktype:C": 100, "toktype:V": 100, "toktype:!": 20, "toktype:=": 20,
+    "toktype:F": 20, "tok:settings-changed-between-calls": 200, "toktype:P": 100, "toktype:C": 100, "toktype:V": 100, "toktype:!": 20, "toktype:=": 20,
 }
 
 
@@ -72,6 +72,11 @@ def run(rec, cfg):
     MP.attach_tokenizer("C11")
     rng = cfg.rng("c11")
     toks = {True: Tokenizer(exclude_padding=True), False: Tokenizer(exclude_padding=False)}
+    # one more long-lived instance whose public settings change between calls on the same text:
+    # the padding switch is flipped and a function name is registered / removed again
+    from mathy_core.expressions import AbsExpression
+
+    flip = Tokenizer()
     classes = set()
     for s in strings(cfg, rng):
         if cfg.out_of_time():
@@ -87,6 +92,23 @@ def run(rec, cfg):
                 outs[excl] = "ValueError"
             except Exception as e:
                 outs[excl] = type(e).__name__
+        if rng.random() < 0.25:
+            seq = [("pad", True), ("pad", False), ("fn+", "abs"), ("pad", True), ("fn-", "abs"), ("pad", False)]
+            rng.shuffle(seq)
+            for op, arg in seq[: rng.randint(2, 6)]:
+                if op == "pad":
+                    flip.exclude_padding = arg
+                elif op == "fn+":
+                    flip.functions[arg] = AbsExpression
+                else:
+                    flip.functions.pop(arg, None)
+                rec.arm("tok:settings-changed-between-calls")
+                for t in (s, s.replace("sgn", "abs") if "sgn" in s else "abs(" + s[:12] + ")"):
+                    try:
+                        flip.tokenize(t)
+                    except Exception:
+                        pass
+            flip.functions.pop("abs", None)
         # relational law, directly on what the implementation returned
         if isinstance(outs[True], list) and isinstance(outs[False], list):
             rec.ev()
